@@ -83,6 +83,7 @@ def solve(
 ) -> Union[Value, CanAssignError]:
     bottom = BOTTOM
     top = TOP
+    separate_tops = []
     options = None
 
     for bound in bounds:
@@ -106,7 +107,10 @@ def solve(
             elif bound.value.is_assignable(top, ctx):
                 pass
             else:
-                top = unite_values(top, bound.value)
+                # New bound is separate. We have to satisfy both, but we
+                # cannot represent their intersection, so we check it
+                # against the solution below.
+                separate_tops.append(bound.value)
         elif isinstance(bound, OrBound):
             # TODO figure out how to handle this
             continue
@@ -120,21 +124,22 @@ def solve(
             solution = AnyValue(AnySource.generic_argument)
         else:
             solution = top
-    elif top is TOP:
-        solution = bottom
     else:
-        can_assign = top.can_assign(bottom, ctx)
-        if isinstance(can_assign, CanAssignError):
-            return CanAssignError(
-                "Incompatible bounds on type variable",
-                [
-                    can_assign,
-                    CanAssignError(
-                        children=[CanAssignError(str(bound)) for bound in bounds]
-                    ),
-                ],
-            )
         solution = bottom
+
+    if top is not TOP:
+        for upper in (top, *separate_tops):
+            can_assign = upper.can_assign(solution, ctx)
+            if isinstance(can_assign, CanAssignError):
+                return CanAssignError(
+                    "Incompatible bounds on type variable",
+                    [
+                        can_assign,
+                        CanAssignError(
+                            children=[CanAssignError(str(bound)) for bound in bounds]
+                        ),
+                    ],
+                )
 
     if options is not None:
         can_assigns = [option.can_assign(solution, ctx) for option in options]
